@@ -113,7 +113,53 @@ def acceptTrace (evs : Array Ev) (x0 : Array Float) (rnorm0 : Float) (maxFev : N
             | _ => r := { r with problems := r.problems.push s!"ev{i}:rejected-last-trial-not-reset" }
   return r
 
+/-- C02 on complete fits: the `FitResult` accessors describe the state of the returned problem –
+`nonlinear_parameters()` are its parameters, `best_fit()` is `Φ(α̂)·Ĉ` (unweighted, computed from the
+harness' own table of Φ at the returned parameters) in the shape of the observations,
+`linear_coefficients()` are the problem's -/
+def handleFitAccessors (focus : String) (c : Case) : String := Id.run do
+  let (acc0, tag0) := stateCore focus c
+  let mut acc := acc0
+  let width := attrNat c.header "width" 64
+  let n := attrNat c.header "n"; let s := attrNat c.header "s"; let m := attrNat c.header "m"
+  let u := unitRoundoff width
+  let some rl := c.firstWith "result" | return ({ acc with corr := acc.corr.push "no-result-line" }).render tag0
+  let kind := rl.getD 1 ""
+  if kind == "hang" || kind == "panic" then return acc.render s!"{tag0}/{kind}"
+  let steps := parseSteps c
+  if steps.size == 0 then return acc.render tag0
+  let fin := steps[steps.size - 1]!
+  let fo := fin.get "impl"
+  if let some nl := c.firstWith "nonlinear" then
+    if let some fp := fo.params then
+      acc := { acc with compared := acc.compared + 1 }
+      if !bitsEq (fvecAt nl 1) fp then
+        acc := { acc with mon := acc.mon.push s!"nonlinear_parameters≠params" }
+  if let some bl := c.firstWith "bestfit" then
+    if bl.getD 1 "" == "some" then
+      let bf := fmatAt bl 2
+      if let (some (some ci), some phi) := (fo.coef, fin.tables.phi) then
+        let direct := phi.mul ci
+        let tolB := 64.0 * u * (m.toFloat + 1.0) * phi.maxAbs * ci.maxAbs + 1e-300
+        acc := { acc with compared := acc.compared + 1, nontrivial := true }
+        if bf.r != n || bf.c != s then
+          acc := { acc with mon := acc.mon.push s!"best_fit-shape-{bf.r}x{bf.c}" }
+        else if !(maxDiff direct.a bf.a ≤ tolB) then
+          acc := { acc with mon := acc.mon.push s!"best_fit≠ΦC:{fmtF (maxDiff direct.a bf.a)}" }
+    else if (fo.coef.getD none).isSome && fin.tables.phi.isSome then
+      acc := { acc with mon := acc.mon.push s!"best_fit-absent-with-coefficients-present" }
+  if let some fl := c.firstWith "fitcoef" then
+    match fl.getD 1 "", fo.coef with
+    | "some", some (some ci) =>
+      if !bitsEq (fmatAt fl 2).a ci.a then
+        acc := { acc with mon := acc.mon.push s!"FitResult.linear_coefficients≠problem.linear_coefficients" }
+    | "none", some none => pure ()
+    | _, none => pure ()
+    | _, _ => acc := { acc with mon := acc.mon.push s!"FitResult.linear_coefficients-presence" }
+  return acc.render tag0
+
 def handleFit (focus : String) (c : Case) : String := Id.run do
+  if focus == "C02" then return handleFitAccessors focus c
   let (acc0, tag0) := stateCore (if focus == "C04" then "C04state" else focus) c
   let mut acc := acc0
   let width := attrNat c.header "width" 64
